@@ -774,18 +774,14 @@ func planFor(prop, tier string) (*plan, error) {
 		}
 		// user identifiers named like generated ones must keep their meaning
 		names := []string{"ctx", "err", "sched", "emitter", "tasks", "task0", "task1", "v1", "v2", "p0", "pred1", "flowInfo", "flowEmitter", "schedInfo", "schedEmitter", "startTime", "parallelInfo", "directiveInfo", "parallelEmitter", "sliceTask0Slice", "sliceTask0Jobs", "mapTask0Jobs", "key", "val", "idx", "recovered", "stacktrace", "taskEmitter", "t"}
-		for i := 0; i < len(names); i += 4 {
-			end := i + 4
-			if end > len(names) {
-				end = len(names)
-			}
-			p := flowProg(exprConc(pg.Shape("chain2")), "S:shadow")
-			p.F.Shadow = names[i:end]
+		for _, nm := range names {
+			p := flowProg(exprConc(pg.Shape("chain2")), "S:shadow="+nm)
+			p.F.Shadow = []string{nm}
 			mk(p)
 			q := pg.Pars(3, false)
-			pp := parProg(q[len(q)-2].Clone(), "S:shadow")
+			pp := parProg(q[len(q)-2].Clone(), "S:shadow="+nm)
 			pp.Par.Conc = "expr"
-			pp.F.Shadow = names[i:end]
+			pp.F.Shadow = []string{nm}
 			mk(pp)
 		}
 		pl.progs = numIDs(ps)
